@@ -10,6 +10,8 @@ import Signac.Extracted
 import Signac.Discovery
 import Signac.Proofs.DiscLocate
 import Signac.Proofs.DiscJob
+import Signac.DiscoveryS
+import Signac.Proofs.DiscoverySLemmas
 namespace Signac.C19
 open Signac Signac.Disc
 
@@ -319,5 +321,76 @@ theorem getJob_innermost_needs_iddir :
   · obtain ⟨_, _, _, _, _, hk⟩ := hd
     exact absurd hk (by decide)
   · exact hs'
+
+/-! ### the schema version as the string in the file (Signac/DiscoveryS.lean)
+
+`DiscS.TreeS` carries the raw `schema_version` strings, `getProjectS` / `getJobS` convert them
+with `int()` where the code does.  "Passes the gate" becomes `Accepted`: the config has the key
+and `int()` reads its string as the supported version. -/
+open Signac.DiscS Signac.PyInt
+
+/-- `getProject_nearest` for EVERY string tree (integer literals or not): `get_project(p)`
+    returns `q` iff `p` exists, `q` is the nearest project at or above `p`, and the string its
+    config declares is read by `int()` as the supported version.  A nearer project whose string
+    is anything else — "3", "2.1", "" — is never skipped (`C20.gate_refuses_strings`). -/
+theorem getProjectS_nearest (ts : TreeS) (p q : Path) :
+    (getProjectS ts p true).1 = .ok q ↔
+      ts.kind p ≠ .absent ∧ NearestS ts p q ∧
+        ∃ s, ts.cfgS q = some (some s) ∧ pyInt s = some (Mig.SCHEMA : Int) :=
+  getProjectS_search_ok_iff ts p q
+
+/-- `nosearch_exact` for every string tree. -/
+theorem nosearchS_exact (ts : TreeS) (p q : Path) :
+    (getProjectS ts p false).1 = .ok q ↔
+      q = p ∧ ts.kind p ≠ .absent ∧ isProjectS ts p = true ∧
+        ∃ s, ts.cfgS p = some (some s) ∧ pyInt s = some (Mig.SCHEMA : Int) :=
+  getProjectS_nosearch_ok_iff ts p q
+
+/-- The upward search itself does not look at the version at all. -/
+theorem locateS_nearest (ts : TreeS) (p q : Path) : findProjectS ts p = some q ↔ NearestS ts p q :=
+  findProjectS_nearest ts p q
+
+/-- `getJob_innermost` transfers to every string tree whose versions are integer literals
+    (`Denotes ts t`, see `C20.stringLayer_refines`). -/
+theorem getJobS_innermost (ts : TreeS) (t : Tree) (h : Denotes ts t) (L : LayoutW t) (p : Path)
+    (j : String) (q : Path) :
+    (getJobS ts p).1 = .ok (j, q) ↔
+      t.kind p ≠ .absent ∧ GateOk t q ∧ IsJobDir t (j :: "workspace" :: q) ∧
+        AncOrSelf (j :: "workspace" :: q) p ∧
+        ∀ d, IsJobDir t d → AncOrSelf d p → AncOrSelf d (j :: "workspace" :: q) := by
+  rw [getJobS_eq h]
+  simp only [liftR, liftE_ok_iff]
+  exact getJob_innermost t L p j q
+
+/-- and for a string tree outside that domain: whatever `get_job` returns, the project's string
+    is one `int()` reads as the supported version -/
+theorem getJobS_accepted (ts : TreeS) (p : Path) (j : String) (q : Path)
+    (h : (getJobS ts p).1 = .ok (j, q)) :
+    ∃ s, ts.cfgS q = some (some s) ∧ pyInt s = some (Mig.SCHEMA : Int) :=
+  getJobS_accepts ts p j q h
+
+/-- the nested example with the versions written as strings: the outer project says " 2", the
+    nested one "02" -/
+def exTreeS : TreeS := TreeS.ofNodes [
+  ⟨[], .dir, none, none⟩,
+  ⟨["P"], .dir, some (some " 2"), none⟩,
+  ⟨["workspace", "P"], .dir, none, none⟩,
+  ⟨[idA, "workspace", "P"], .dir, none, none⟩,
+  ⟨["sub", idA, "workspace", "P"], .dir, none, none⟩,
+  ⟨["N", "sub", idA, "workspace", "P"], .dir, some (some "02"), none⟩,
+  ⟨["workspace", "N", "sub", idA, "workspace", "P"], .dir, none, none⟩,
+  ⟨[idB, "workspace", "N", "sub", idA, "workspace", "P"], .dir, none, none⟩,
+  ⟨["data", idB, "workspace", "N", "sub", idA, "workspace", "P"], .dir, none, none⟩,
+  ⟨["x"], .dir, none, none⟩ ]
+
+theorem exTreeS_denotes : Denotes exTreeS exTreeS.toTree :=
+  denotes_toTree _ (intLiterals_ofNodes _ (by decide))
+
+example : (getJobS exTreeS ["data", idB, "workspace", "N", "sub", idA, "workspace", "P"]).1
+    = .ok (idB, ["N", "sub", idA, "workspace", "P"]) := by rfl
+
+example : (getJobS exTreeS ["N", "sub", idA, "workspace", "P"]).1 = .ok (idA, ["P"]) := by rfl
+
+example : getProjectS exTreeS ["x"] true = (.error (.base .lookup), []) := by rfl
 
 end Signac.C19
